@@ -36,6 +36,20 @@ DIRECTED = {
     "push_constant_needs_cap": "var<push_constant> p: vec4<f32>;\n@fragment fn f() -> "
                                "@location(0) vec4<f32> { return p; }",
     "workgroup_size_zero": "@compute @workgroup_size(0) fn f() { }",
+    # two defects: a missing capability first (in the validator's order), an unrelated semantic
+    # error later - the reported error must be the validator's for the REQUESTED capability set
+    "cap_then_store_to_pc": "var<push_constant> consts: vec4<f32>;\n@fragment fn fs_main() -> "
+                            "@location(0) vec4<f32> { consts.x = 1.0; return consts; }",
+    "cap_then_type_error": "@group(0) @binding(0) var<storage, read_write> d: f64;\n@compute "
+                           "@workgroup_size(1) fn f() { var x: i32 = 1; x = 2u; d = 1.0lf; }",
+    "cap_then_no_position": "var<push_constant> p: vec4<f32>;\n@vertex fn v() -> @location(0) "
+                            "vec4<f32> { return p; }",
+    "cap_cube_array_then_bad_coords": "@group(0) @binding(0) var t: texture_cube_array<f32>;\n"
+                                      "@group(0) @binding(1) var t2: texture_2d<f32>;\n@fragment "
+                                      "fn f() -> @location(0) vec4<f32> { return textureLoad(t2, "
+                                      "vec3<i32>(0), 0); }",
+    "vertex_index_in_fragment": "@fragment fn f(@builtin(vertex_index) i: u32) -> @location(0) "
+                                "vec4<f32> { return vec4<f32>(f32(i)); }",
     "storage_write_in_vertex": "@group(0) @binding(0) var<storage, read_write> s: array<u32>;\n"
                                "@vertex fn v() -> @builtin(position) vec4<f32> { s[0] = 1u; "
                                "return vec4<f32>(0.0); }",
